@@ -65,6 +65,7 @@ SPECS["C05"] = dict(
         dict(name="cast_scalar_value", comment="... equal to the value of its initialiser"),
         dict(name="cast_scalar_complex_refused"),
         dict(name="cast_scalar_refuse_inv"),
+        dict(name="cast_scalar_array_refused"),
         dict(name="array_layout", comment="an accepted array declaration binds a two-dimensional array with the declared element type whose rows are the written rows; a declared shape equals the actual one"),
         dict(name="array_layout_rc", comment="element (i, j) is the j-th entry of the i-th written row (row-major storage)"),
         dict(name="idx_row_col"),
